@@ -49,7 +49,7 @@ class Ty:
     def name(self):
         return 'T'
 
-FIELD_NAMES = ['a', 'b', 'c', 'x', 'y', 'state', 'other', 'f', 'source', 'r#type', 'builder', 'arg', '_0', 'data', 'size']
+FIELD_NAMES = ['a', 'b', 'c', 'x', 'y', 'state', 'other', 'f', 'source', 'r#type', 'builder', 'arg', 'data', 'size', 'self_data', 'other_data']
 VAR_NAMES = ['A', 'B', 'C', 'Unit', 'None', 'Some', 'V1', 'Zed']
 
 def gen_shape(r, tid, kinds=('struct', 'enum'), maxf=4, ftgen=None, min_variants=1, unit_ok=True, same_k=0.4):
@@ -80,25 +80,38 @@ def fields_decl(v):
     if v.shape == 'unit':
         return ''
     if v.shape == 'named':
-        return ' { ' + ', '.join('%s%s: %s' % (fattr_text(f), f.name, f.ft.rust) for f in v.fields) + ' }'
-    return '(' + ', '.join('%s%s' % (fattr_text(f), f.ft.rust) for f in v.fields) + ')'
+        return ' { ' + ', '.join('%s%s%s: %s' % (fattr_text(f), PUB[0], f.name, f.ft.rust) for f in v.fields) + ' }'
+    return '(' + ', '.join('%s%s%s' % (fattr_text(f), PUB[0], f.ft.rust) for f in v.fields) + ')'
+
+PUB = ['']
+
+def gen_params(t):
+    g = getattr(t, 'generic', None)
+    return '<%s>' % ', '.join(g) if g else ''
 
 def type_decl(t):
+    PUB[0] = 'pub ' if t.kind in ('struct', 'union') else ''
+    try:
+        return type_decl_inner(t)
+    finally:
+        PUB[0] = ''
+
+def type_decl_inner(t):
     out = ['#[derive(Educe)]'] + ['#[derive(%s)]' % d for d in t.derives] + t.pre_attrs
     for a in t.type_attrs:
         out.append('#[educe(%s)]' % a)
     if t.kind == 'struct':
         v = t.variants[0]
-        out.append('pub struct T%s%s' % (fields_decl(v), '' if v.shape == 'named' else ';'))
+        out.append('pub struct T%s%s%s' % (gen_params(t), fields_decl(v), '' if v.shape == 'named' else ';'))
     elif t.kind == 'enum':
         vs = []
         for v in t.variants:
             va = ''.join('#[educe(%s)] ' % m for m in v.at.get('_metas', []))
             vs.append('%s%s%s%s' % (va, v.name, fields_decl(v), '' if v.discr is None else ' = %d' % v.discr))
-        out.append('pub enum T { %s }' % ', '.join(vs))
+        out.append('pub enum T%s { %s }' % (gen_params(t), ', '.join(vs)))
     else:
         v = t.variants[0]
-        out.append('pub union T { %s }' % ', '.join('%s%s: %s' % (fattr_text(f), f.name, f.ft.rust) for f in v.fields))
+        out.append('pub union T { %s }' % ', '.join('%spub %s: %s' % (fattr_text(f), f.name, f.ft.rust) for f in v.fields))
     return '\n'.join(out)
 
 def ctor(t, v):
@@ -166,9 +179,32 @@ class Suite:
         """-> (Ty, rust module body, meta dict) or None"""
         raise NotImplementedError
 
+HOSTILE = [False]
+HOSTILE_ITEMS = '''
+    // names at the derive site that shadow everything the generated code might be tempted to write unqualified
+    #[allow(non_camel_case_types)] pub struct Option; pub struct Result; pub struct Ordering; pub struct Clone; pub struct Copy;
+    pub struct Default; pub struct Debug; pub struct PartialEq; pub struct Eq; pub struct PartialOrd; pub struct Ord; pub struct Hash;
+    pub struct Hasher; pub struct Into; pub struct From; pub struct Deref; pub struct DerefMut; pub struct Formatter; pub struct String;
+    pub struct Vec; pub struct Box; pub struct PhantomData; pub struct Sized; pub struct Send; pub struct Iterator; pub struct Self_;
+    #[allow(non_snake_case)] pub fn Some() {} #[allow(non_snake_case)] pub fn None() {} #[allow(non_snake_case)] pub fn Ok() {} #[allow(non_snake_case)] pub fn Err() {}
+    pub fn drop() {} pub mod core {} pub mod std {} pub mod alloc {} pub mod fmt {} pub mod cmp {} pub mod hash {} pub mod clone {} pub mod marker {}
+    #[allow(unused_macros)] macro_rules! stringify { ($($t:tt)*) => { "SHADOWED" } }
+    #[allow(unused_macros)] macro_rules! unreachable { ($($t:tt)*) => { () } }
+    #[allow(unused_macros)] macro_rules! panic { ($($t:tt)*) => { () } }
+    #[allow(unused_macros)] macro_rules! matches { ($($t:tt)*) => { true } }
+    #[allow(unused_macros)] macro_rules! write { ($($t:tt)*) => { () } }
+    #[allow(unused_macros)] macro_rules! format_args { ($($t:tt)*) => { () } }
+    #[allow(unused_macros)] macro_rules! assert { ($($t:tt)*) => { () } }
+'''
+
 def module(t, body, nvals):
+    """the educed type lives in its own module with warnings denied: anything the derive emits that rustc
+    warns about, or that fails to compile, is attributed to that module; with HOSTILE the module also
+    shadows the prelude (C19)"""
+    ty = ('pub mod ty {\n    #![deny(warnings)]\n    #![allow(dead_code, unused_imports)]\n    use crate::support::{A, B, C, Good, Bad, m_eq, m_cmp, m_pcmp, m_hash, m_fmt, m_clone, m_clone_c, m_into, g_eq, g_cmp, g_pcmp, g_hash, g_fmt};\n'
+          '    use educe::Educe;\n%s%s\n}\npub use ty::T;' % (HOSTILE_ITEMS if HOSTILE[0] else '', type_decl(t)))
     return ('// %s\n#![allow(dead_code, unused_variables, unused_mut, unused_imports, non_shorthand_field_patterns, clippy::all)]\n'
-            'use crate::support::*;\nuse educe::Educe;\nuse core::cmp::Ordering;\n%s\n%s\n' % (t.id, type_decl(t), body))
+            'use crate::support::*;\nuse core::cmp::Ordering;\n%s\n%s\n' % (t.id, ty, body))
 
 class EqSuite(Suite):
     name = 'eq'
@@ -814,6 +850,80 @@ class UnionSuite(Suite):
 SUITES.update({'debug': DebugSuite(), 'clone': CloneSuite(), 'default': DefaultSuite(), 'deref': DerefSuite(),
                'into': IntoSuite(), 'union': UnionSuite()})
 
+# ---- C11 probes: which instantiations does the generated impl apply to?
+BOUND_TRAITS = {
+    'PartialEq': dict(probe='p_partial_eq', method='g_eq', ignore=True),
+    'Hash': dict(probe='p_hash', method='g_hash', ignore=True),
+    'PartialOrd': dict(probe='p_partial_ord', method='g_pcmp', ignore=True, manual=['PartialEq']),
+    'Ord': dict(probe='p_ord', method='g_cmp', ignore=True, manual=['PartialEq', 'Eq', 'PartialOrd']),
+    'Debug': dict(probe='p_debug', method='g_fmt', ignore=True),
+    'Clone': dict(probe='p_clone', method=None, ignore=False),
+    'Eq': dict(probe='p_eq', method=None, ignore=False, manual=['PartialEq']),
+    'Copy': dict(probe='p_copy', method=None, ignore=False, manual=['Clone']),
+}
+MANUAL_IMPL = {
+    'PartialEq': 'impl<%(g)s> ::core::cmp::PartialEq for T<%(a)s> { fn eq(&self, _: &Self) -> bool { true } }',
+    'Eq': 'impl<%(g)s> ::core::cmp::Eq for T<%(a)s> {}',
+    'PartialOrd': 'impl<%(g)s> ::core::cmp::PartialOrd for T<%(a)s> { fn partial_cmp(&self, _: &Self) -> Option<Ordering> { None } }',
+    'Clone': 'impl<%(g)s> ::core::clone::Clone for T<%(a)s> { fn clone(&self) -> Self { loop {} } }',
+}
+
+class BoundsSuite(Suite):
+    name = 'bounds'
+    def make(self, r, tid):
+        trait = pick(r, list(BOUND_TRAITS))
+        info = BOUND_TRAITS[trait]
+        nparams = pick(r, [1, 2, 2, 3])
+        params = ['X', 'Y', 'Z'][:nparams]
+        def ftgen(r, i):
+            p = pick(r, params)
+            return FT(pick(r, ['%s', '%s', 'Option<%s>', '::core::marker::PhantomData<%s>' if trait in ('Clone',) and False else '%s']) % p, [])
+        t = gen_shape(r, tid, ftgen=ftgen, unit_ok=(trait not in ()), maxf=3)
+        for v in t.variants:
+            for f in v.fields:
+                f.param = re.search(r'[XYZ]', f.ft.rust).group(0)
+        params = sorted(set(f.param for v in t.variants for f in v.fields))
+        nparams = len(params)
+        if not params:
+            return None
+        mode = pick(r, ['auto', 'auto', 'auto', 'all', 'custom'])
+        needed = set()
+        for v in t.variants:
+            for f in v.fields:
+                c = r.random()
+                deleg = True
+                if info['ignore'] and c < 0.3:
+                    f.at['_metas'] = [sp_ignore(r, trait)]; deleg = False
+                elif info['method'] and c < 0.55:
+                    f.at['_metas'] = [sp_method(r, trait, info['method'])]; deleg = False
+                if deleg:
+                    needed.add(f.param)
+        tparam = []
+        if mode == 'all':
+            tparam = ['bound(*)']; needed = set(params)
+        elif mode == 'custom':
+            # a custom bound must at least cover what the body needs
+            q = pick(r, params)
+            want = sorted(needed | {q})
+            btrait = {'PartialEq': '::core::cmp::PartialEq', 'Hash': '::core::hash::Hash', 'PartialOrd': '::core::cmp::PartialOrd', 'Ord': '::core::cmp::Ord',
+                      'Debug': '::core::fmt::Debug', 'Clone': '::core::clone::Clone', 'Eq': '::core::cmp::PartialEq', 'Copy': '::core::marker::Copy'}[trait]
+            preds = ', '.join('%s: %s' % (p, btrait) for p in want)
+            tparam = [pick(r, ['bound(%s)', 'bound = "%s"']) % preds]; needed = set(want)
+        t.type_attrs = ['%s(%s)' % (trait, ', '.join(tparam))] if tparam else [trait]
+        t.generic = params
+        g = ', '.join(params)
+        extra = [MANUAL_IMPL[m] % dict(g=g, a=g) for m in info.get('manual', [])]
+        checks = []
+        for combo in itertools.product(['Good', 'Bad'], repeat=nparams):
+            exp = all(c == 'Good' for p, c in zip(params, combo) if p in needed)
+            inst = 'T<%s>' % ', '.join(combo)
+            checks.append('{ use crate::support::%s::Fallback as _; let g = crate::support::%s::P::<%s>::YES; out.check(g == %s, "%s", "impl_applies", || format!("%s: %s is {} but the delegated fields say %s", g)); }'
+                          % (info['probe'], info['probe'], inst, 'true' if exp else 'false', tid, inst, trait, 'true' if exp else 'false'))
+        body = '\n'.join(extra + ['pub fn run(out: &mut Out) { %s }' % ' '.join(checks)])
+        return t, module(t, body, 1), dict(values=2 ** nparams, trait=trait, mode=mode)
+
+SUITES['bounds'] = BoundsSuite()
+
 # ------------------------------------------------------------------ build & run
 MAIN_HEAD = '#![allow(clippy::all)]\nmod support;\n'
 
@@ -866,11 +976,12 @@ def build_and_run(mods, max_rounds=4):
     p = subprocess.run([os.path.join(ROOT, '_build/k2target/debug/k2')], capture_output=True, text=True, timeout=600)
     return p.stdout.split('\n'), compile_fail, p.returncode
 
-def run(pid, suites, tier, seed, n=None):
+def run(pid, suites, tier, seed, n=None, hostile=False, only_ops=None):
     """-> (failures, stats).  failure: dict(key, what, type_def, detail)"""
     with vlib.Lock('k2lock'):
         t0 = time.time()
         n = n or (40 if tier == 'quick' else 400)
+        HOSTILE[0] = hostile
         mods, info = [], {}
         for sname in suites:
             S = SUITES[sname]
@@ -884,6 +995,7 @@ def run(pid, suites, tier, seed, n=None):
                 t, src, meta = res
                 mods.append((tid, src))
                 info[tid] = (t, src, meta)
+        HOSTILE[0] = False
         lines, compile_fail, rc = build_and_run(mods)
         failures = []
         ran, checks = 0, 0
@@ -900,7 +1012,8 @@ def run(pid, suites, tier, seed, n=None):
                 checks = int(p[1])
         for tid, msg in compile_fail.items():
             t, src, meta = info[tid]
-            failures.append(dict(key='k2:compile:%s' % hashlib.sha256(type_decl(t).encode()).hexdigest()[:10],
+            cls = 'non_snake_case_binding' if re.search(r'should have a snake case name', msg) and not re.search(r'\[E\d+\]', msg) else hashlib.sha256(type_decl(t).encode()).hexdigest()[:10]
+            failures.append(dict(key='k2:compile:%s' % cls,
                                  what='generated code (or the oracle harness) for this accepted request does not compile: %s' % msg[:300],
                                  type_def=type_decl(t), detail=msg, module_source=src, op='compile'))
         if rc != 0 and not failures:
@@ -911,6 +1024,8 @@ def run(pid, suites, tier, seed, n=None):
             k = (f['type_def'], f['op'])
             if k not in seen:
                 seen.add(k); uniq.append(f)
+        if only_ops:
+            uniq = [f for f in uniq if f['op'] in only_ops]
         stats = dict(types=len(mods), ran=ran, checks=checks, failures=len(failures), compile_failures=len(compile_fail),
                      wall_s=round(time.time() - t0, 1))
         return uniq, stats
